@@ -22,7 +22,10 @@ CONSTANTS
   Scheme,     \* valuation scheme id
   OnlySD,     \* TRUE: only smooth and decomposable base circuits are finished
   PolyDeg,    \* degree of polynomial inputs
-  DiffK       \* set of differentiation orders
+  DiffK,      \* set of differentiation orders
+  EmitOps,    \* emit a behaviour only at states whose number of applied operators is in this set
+  EmitMod,    \* ... and whose structural hash is EmitRes modulo EmitMod (1 = emit all)
+  EmitRes
 
 VARIABLES layers, outs, ops, phase
 vars == <<layers, outs, ops, phase>>
@@ -33,6 +36,9 @@ NL == Len(layers)
 KindIdx(k) == CHOOSE i \in 1..Len(InKindSeq) : InKindSeq[i] = k
 InKey(l) == l.var * 1000 + KindIdx(l.kind) * 10 + l.K
 
+KindHash(k) == CASE k = "emb" -> 1 [] k = "catp" -> 2 [] k = "catl" -> 3 [] k = "poly" -> 4
+                 [] k = "const" -> 5 [] k = "clog" -> 6 [] k = "binom" -> 7 [] k = "sum" -> 8
+                 [] k = "mix" -> 9 [] k = "had" -> 10 [] k = "kron" -> 11 [] OTHER -> 12
 Layer(kind, var, K, ins) == [kind |-> kind, var |-> var, K |-> K, ins |-> ins]
 
 (* ---------- structure ---------- *)
@@ -204,7 +210,17 @@ Behaviour ==
    ops |-> [n \in 1..Len(ops) |-> OpJson(ops[n])],
    expect |-> [i \in 1..NP |-> ExpectOf(i)]]
 
-EmitInv == phase = "ops" => PrintT(<<"VP", ToJson(Behaviour)>>)
+RECURSIVE SeqSum(_, _)
+SeqSum(s, n) == IF n = 0 THEN 0 ELSE s[n] * n + SeqSum(s, n - 1)
+StructHash ==
+  LET RECURSIVE F(_)
+      F(n) == IF n = 0 THEN 0
+              ELSE (n * (KindHash(layers[n].kind) + 3 * layers[n].K + 7 * layers[n].var
+                         + 11 * SeqSum(layers[n].ins, Len(layers[n].ins))) + F(n - 1)) % 100003
+  IN (F(NL) + 13 * SeqSum(outs, Len(outs)) + 17 * Len(ops)) % 100003
+
+Emitting == phase = "ops" /\ Len(ops) \in EmitOps /\ (StructHash % EmitMod) = (EmitRes % EmitMod)
+EmitInv == Emitting => PrintT(<<"VP", ToJson(Behaviour)>>)
 
 (* magnitudes stay far from the 32-bit limit *)
 TypeOK == phase \in {"build", "ops"}
